@@ -189,6 +189,11 @@ func Gen(seed uint64, tier string) any {
 		return sc
 	}
 	sc.SkewS = core.Pick(r, 0, 0, 0, -1, 1, sc.Fudge-1, sc.Fudge, sc.Fudge+1, -sc.Fudge, -sc.Fudge-1, 65536, 65536+sc.Fudge, 65536-sc.Fudge, 1<<24)
+	if core.Chance(r, 6) {
+		// signing times centuries ahead (the field has 48 bits): differences that do not fit the usual types for
+		// time spans - 2^33 s is the last power of two that fits a count of nanoseconds in 63 bits
+		sc.SkewS = core.Pick(r, 1<<33, 1<<34, 1<<34, 1<<40, 1<<47-1<<31) + r.IntN(2*sc.Fudge+1) - sc.Fudge
+	}
 	n := 1 + r.IntN(4)
 	if tier == "thorough" {
 		n = 1 + r.IntN(8)
@@ -229,7 +234,7 @@ func Gen(seed uint64, tier string) any {
 		case x < 50:
 			ev.Fault, ev.Region, ev.Frac, ev.Bit = "flip", core.Pick(r, regions...), r.IntN(1000), r.IntN(8)
 		case x < 57:
-			ev.Fault = core.Pick(r, "unsign", "duptsig", "trunc", "sweep", "field", "field", "field")
+			ev.Fault = core.Pick(r, "unsign", "duptsig", "trunc", "sweep", "field", "field", "field", "cutmac")
 			ev.Frac = r.IntN(1000)
 			if ev.Fault == "field" {
 				// a whole field overwritten with a value a lenient reader might take for "not set"
@@ -253,6 +258,12 @@ func Gen(seed uint64, tier string) any {
 			}
 		}
 		sc.Events = append(sc.Events, ev)
+	}
+	if sc.SkewS >= 1<<33-1<<20 {
+		// (no waiting for centuries: such messages are judged at the verifier's present)
+		for i := range sc.Events {
+			sc.Events[i].Time, sc.Events[i].FarS = "now", 0
+		}
 	}
 	return sc
 }
@@ -532,6 +543,9 @@ func runBare(sc *Scenario, res *core.Result, verbose bool) {
 	for _, p := range plan {
 		ev := p.ev
 		if now := time.Now().Unix(); p.at > now {
+			if p.at-now > 200*365*86400 {
+				continue // (not reachable by waiting: a time span of centuries does not fit the clock's arithmetic)
+			}
 			time.Sleep(time.Duration(p.at-now) * time.Second)
 		}
 		now := uint64(time.Now().Unix())
@@ -576,6 +590,16 @@ func runBare(sc *Scenario, res *core.Result, verbose bool) {
 			k := 12 + (len(b)-12)*ev.Frac/1000
 			b = b[:k:k]
 			res.Bump("fault.truncated")
+		case "cutmac":
+			// the message ends right behind the TSIG's MAC size field (or half way through the MAC): the field
+			// still announces a full MAC, RDLENGTH says what is there
+			if c := oracle.CutBehindMACSize(b, ev.Frac%2 == 1); c != nil {
+				b = c
+				desc = "cut behind the MAC size field"
+				res.Bump("fault.cut_behind_mac_size")
+			} else {
+				ev.Fault = "none"
+			}
 		}
 		if ev.Fault == "sweep" {
 			// every single-bit alteration and every truncation of this message
@@ -632,6 +656,15 @@ func runBare(sc *Scenario, res *core.Result, verbose bool) {
 		got := "reject"
 		if lerr == nil {
 			got = "accept"
+		}
+		if ev.Fault == "cutmac" {
+			// whatever else is wrong with it: a MAC that is not there cannot equal the one RFC 8945 prescribes
+			res.Bump("oracle.V1_invalid_rejected")
+			if lerr == nil {
+				res.Fail("V1", "invalid-accepted:mac-octets-missing", "TsigVerify accepted a message that ends behind its TSIG's MAC size field (the field says %s's full size, the MAC octets are not there)", sc.Alg)
+				return
+			}
+			continue
 		}
 		logf("deliver msg %d %s prior=%s timers=%v key=%s t=%s -> %s (ref %v %s)", ev.Msg, desc, ev.Prior, vtimers, ev.Key, ev.Time, got, v.Valid, v.Reason)
 		res.Classes = append(res.Classes, fmt.Sprintf("bare/%s/%s/%s/prior=%s/timers=%s/key=%s/t=%s/%s", strings.ToLower(sc.Alg), ev.Fault, ev.Region, ev.Prior, ev.Timers, ev.Key, ev.Time, got))
